@@ -75,6 +75,15 @@ Definition perm_b (a b : list tiv) : bool :=
   (len a =? len b) && forallb (fun x => count_tiv x a =? count_tiv x b) (a ++ b).
 Definition sort_spec_ok (inp out : list tiv) : bool := perm_b inp out && sortedb key3_leb out.
 
+(* interval multisets given with multiplicities: a row (m, start, stop) stands for m copies of [start, stop) *)
+Definition expand_w (W : list tiv) : list iv := concat (map (fun t => repeat (untag t) (Z.to_nat (t_tag t))) W).
+Definition cov_w (W : list tiv) (x : Z) : Z := sumZ (map (fun t => t_tag t * b2z (covers x (untag t))) W).
+Definition pileup_w_spec (W : list tiv) (size : Z) : list Z := map (cov_w W) (bases size).
+Definition mask_w_spec (W : list tiv) (size : Z) : list bool := map (fun x => 0 <? cov_w W x) (bases size).
+Definition merge_w_spec (d : Z) (W : list tiv) (size : Z) : list iv := bridge d (runs (mask_w_spec W size)).
+Definition overlap_w_spec (WA WB : list tiv) (size : Z) : Z :=
+  sumZ (map (fun x => Z.max (cov_w WA x + cov_w WB x - 1) 0) (bases size)).
+
 (* overlap counting, in bases *)
 Definition overlap_spec (A B : list iv) (size : Z) : Z :=
   sumZ (map (fun x => Z.max (cov (A ++ B) x - 1) 0) (bases size)).
@@ -338,6 +347,16 @@ Definition sort_lex_model := sort_lex_fixed.        (* <- one-line switch when n
 Definition geom_sort_leb_pinned := key2_leb.
 Definition geom_sort_leb_fixed := key3_leb.
 Definition geom_sort_leb := geom_sort_leb_fixed.    (* <- one-line switch when notes/C08.fix-3.diff is committed *)
+
+(* ---------- deep inputs (more than 2^15 / 2^16 intervals on a tiny contig), given with multiplicities.
+   Expanding such a multiset inside Coq and insertion-sorting its events is infeasible, so the correspondence evaluates
+   the functions below; Proofs/C08_big.v proves that they ARE the models' outputs on the expanded multiset:
+     pileup_model (expand_w W) L = pileup_big_model W L,   mask_model (expand_w W) L = Some (mask_big_model W L),
+     merge_model d (expand_w W) = Some (merge_big_model d W L),   count_overlap_model (expand_w WA) (expand_w WB) = ... *)
+Definition pileup_big_model (W : list tiv) (L : Z) : list Z := pileup_w_spec W L.
+Definition mask_big_model (W : list tiv) (L : Z) : list bool := mask_w_spec W L.
+Definition merge_big_model (d : Z) (W : list tiv) (L : Z) : list iv := merge_w_spec d W L.
+Definition count_overlap_big_model (WA WB : list tiv) (L : Z) : Z := overlap_w_spec WA WB L.
 
 (* ---------- Geometry routes (genomic_data/geometry.py): the contig is chromosome number r of a genome with
    chromosome sizes [sizes]; Geometry works in global coordinates (offset of the chromosome added) and slices /
